@@ -1,7 +1,7 @@
 (* C03 — whatever a node emits passes the network's own validation and size limits.
    Property theorems only; proofs live in Proofs/{Outcome,Observation,Reports}Proofs.v. *)
 From Verif Require Import Base.Util Model.Types Model.Outcome Model.Validate Model.OutcomeCase Model.Observation
-  Proofs.OutcomeProofs Proofs.ObservationProofs Proofs.ValidateProofs Gen.Generated.
+  Proofs.OutcomeProofs Proofs.ObservationProofs Proofs.ObsValidProofs Proofs.ValidateProofs Gen.Generated.
 From Verif Require Model.Reports Proofs.ReportsProofs.
 Open Scope N_scope.
 
@@ -46,6 +46,25 @@ Proof.
   destruct (H3 eq_refl) as [H4 [H5 _]]. split; assumption.
 Qed.
 Print Assumptions C03_observation_performables_fit.
+
+(* Every observation built by the hooks from well-formed stores — staged results that meet the result
+   rules with one result per work id (C10, pipeline_wf), proposal views with one entry per work id and
+   the right trigger type (C11), a block history without repeated numbers (blocksource_wf) — for ANY
+   in-flight set, any keyed shuffle, any cut k <= 100 of the canonical order, is accepted by every
+   peer's validation. *)
+Theorem C03_observation_valid :
+  forall utg wg (shuf : N -> N) blocked staged k logperm condperm logview condview hist,
+    (k <= 100)%nat ->
+    Forall (result_rules utg wg) staged -> NoDup (map r_wid staged) ->
+    Forall (proposal_rules utg wg) logview -> Forall (proposal_rules utg wg) condview ->
+    NoDup (map p_wid logview) -> NoDup (map p_wid condview) ->
+    (forall p, In p logview -> utg (p_upk p) = ut_log) ->
+    (forall p, In p condview -> utg (p_upk p) = ut_cond) ->
+    (forall p q, In p logview -> In q condview -> p_wid p <> p_wid q) ->
+    NoDup logperm -> NoDup condperm -> NoDup (map bk_num hist) ->
+    valid_obs utg wg (build_obs shuf blocked staged k logperm condperm logview condview hist) = true.
+Proof. exact build_obs_accepted. Qed.
+Print Assumptions C03_observation_valid.
 
 (* The number of reports never exceeds the advertised maximum. *)
 Theorem C03_report_count :
